@@ -10,6 +10,7 @@ family (connate = first table saturation, critical = last saturation with zero r
 property statement (drainage curve until the first reversal, continuity at the reversal point, monotone scanning
 curves, Carlson with identical curves == no hysteresis).
 """
+import copy
 import bisect
 import math
 import os
@@ -397,13 +398,20 @@ def case_strategy(draw, tier):
     mode = draw(st.sampled_from(["unscaled", "unscaled", "identity", "eps", "eps", "eps", "hyst", "hyst", "hysteps",
                                  "hysteps", "hysteps"]))
     phases = draw(st.sampled_from(["OW", "GO", "OWG", "OWG"]))
-    nreg = draw(st.integers(1, 3))
     hyst = mode in ("hyst", "hysteps")
+    nreg = draw(st.integers(1, 3 if hyst else 4))
     if hyst and draw(st.integers(0, 3)) > 0:
         nreg = max(nreg, 2)
     regs = draw(regions(phases, nreg, hyst))
+    # a table may be defaulted (an empty record): it is then the table of the region before it
+    dflt = []
+    if not hyst:
+        for r in range(1, nreg):
+            if draw(st.integers(0, 2)) == 0:
+                regs[r] = copy.deepcopy(regs[r - 1])
+                dflt.append(r)
     ncell = draw(st.integers(1, 4 if not hyst else 3))
-    case = {"mode": mode, "phases": phases, "regs": regs, "kro3": "default"}
+    case = {"mode": mode, "phases": phases, "regs": regs, "kro3": "default", "dflt": dflt}
     if phases == "OWG":
         case["kro3"] = draw(st.sampled_from(["default", "default", "stone2", "stone1"]))
     cells = []
@@ -487,6 +495,7 @@ def table_text(rows):
 def deck_text(case, family=1, endscale=False, arrays=None, hyst=False):
     ph = case["phases"]
     regs = case["regs"]
+    dflt = case.get("dflt", [])
     n = len(case["cells"])
     out = ["RUNSPEC", "DIMENS", " %d 1 1 /" % n, "TABDIMS", " %d 1 60 /" % len(regs)]
     if "O" in ph:
@@ -513,27 +522,30 @@ def deck_text(case, family=1, endscale=False, arrays=None, hyst=False):
     if family == 1:
         if "W" in ph:
             out.append("SWOF")
-            for r in regs:
-                out.append(table_text([[dec(r["sw"][i], 4), dec(r["krw"][i], 4), dec(r["krow"][i], 4),
+            for ri, r in enumerate(regs):
+                out.append("/\n" if ri in dflt else table_text([[dec(r["sw"][i], 4), dec(r["krw"][i], 4), dec(r["krow"][i], 4),
                                         dec(r["pcow"][i], 3)] for i in range(len(r["sw"]))]))
         if "G" in ph:
             out.append("SGOF")
-            for r in regs:
-                out.append(table_text([[dec(r["sg"][i], 4), dec(r["krg"][i], 4), dec(r["krog"][i], 4),
+            for ri, r in enumerate(regs):
+                out.append("/\n" if ri in dflt else table_text([[dec(r["sg"][i], 4), dec(r["krg"][i], 4), dec(r["krog"][i], 4),
                                         dec(r["pcog"][i], 3)] for i in range(len(r["sg"]))]))
     else:
         if "W" in ph:
             out.append("SWFN")
-            for r in regs:
-                out.append(table_text([[dec(r["sw"][i], 4), dec(r["krw"][i], 4), dec(r["pcow"][i], 3)]
+            for ri, r in enumerate(regs):
+                out.append("/\n" if ri in dflt else table_text([[dec(r["sw"][i], 4), dec(r["krw"][i], 4), dec(r["pcow"][i], 3)]
                                        for i in range(len(r["sw"]))]))
         if "G" in ph:
             out.append("SGFN")
-            for r in regs:
-                out.append(table_text([[dec(r["sg"][i], 4), dec(r["krg"][i], 4), dec(r["pcog"][i], 3)]
+            for ri, r in enumerate(regs):
+                out.append("/\n" if ri in dflt else table_text([[dec(r["sg"][i], 4), dec(r["krg"][i], 4), dec(r["pcog"][i], 3)]
                                        for i in range(len(r["sg"]))]))
         out.append("SOF3" if ph == "OWG" else "SOF2")
-        for r in regs:
+        for ri, r in enumerate(regs):
+            if ri in dflt:
+                out.append("/\n")
+                continue
             swco = r["sw"][0] if "W" in ph else 0
             nodes = set()
             if "W" in ph:
@@ -736,6 +748,10 @@ class C15(Check):
         labels = ["mode:" + case["mode"], "phases:" + ph, "nreg:%d" % len(case["regs"]), "cells:%d" % len(case["cells"])]
         if ph == "OWG":
             labels.append("kro3:" + case["kro3"])
+        if case.get("dflt"):
+            labels.append("defaulted-table-record")
+            if any(r >= 2 for r in case["dflt"]):
+                labels.append("defaulted-table-record:third-or-later-region")
         rows = []
         distinct = False
         for r in case["regs"]:
